@@ -61,3 +61,6 @@ pub mod types {
 #[cfg(feature = "server")]
 #[cfg_attr(docsrs, doc(cfg(feature = "server")))]
 pub use server::start;
+
+#[cfg(all(brc20_verif, feature = "server"))]
+pub mod verif;
